@@ -51,10 +51,10 @@ func c11WhoMayEdit(r *an.Run) {
 			switch an.CalleeName(c) {
 			case addNamedImport, addImport:
 				nAdd++
-				r.Check(short(f) == adder, short(f)+"|adds-import", c.Pos(), "imports are added only by %s (found in %s)", adder, short(f))
+				r.Check(short(f) == adder || inGroupOf(r, engine, "ImportReplacer.Replace", f), short(f)+"|adds-import", c.Pos(), "imports are added only by %s or its private helpers (found in %s)", adder, short(f))
 			case delNamedImport, delImport:
 				nDel++
-				r.Check(short(f) == deleter, short(f)+"|deletes-import", c.Pos(), "imports are deleted only by %s (found in %s)", deleter, short(f))
+				r.Check(short(f) == deleter || inGroupOf(r, engine, "ImportsReplacer.Cleanup", f), short(f)+"|deletes-import", c.Pos(), "imports are deleted only by %s or its private helpers (found in %s)", deleter, short(f))
 			case rewriteImportFn:
 				r.Fail(short(f)+"|rewrites-import", c.Pos(), "%s rewrites import paths with astutil.RewriteImport", short(f))
 			}
@@ -93,14 +93,18 @@ func c11OnlyMatchedDeleted(r *an.Run) {
 	if f == nil {
 		return
 	}
-	ils := findIndexLoops(f, isLenOfPath("impData.MatchedImports"))
+	ils := findIndexLoopsGroup(f, isLenOfPathIn(f, "impData.MatchedImports"))
 	if !r.Check(len(ils) == 1, short(f)+"|loop", f.Pos(), "Cleanup loops over the matched imports recorded by ImportsMatcher.Match (impData.MatchedImports)") {
 		return
 	}
 	il := ils[0]
+	anchor := f
+	if g := il.Loop.Header.Parent(); g != f {
+		f = g // the deletion loop lives in a helper of Cleanup
+	}
 	// impData comes from Lookup(d, importsKey, &impData)
 	okSrc := false
-	for _, c := range an.CallsTo(f, dataPath+".Lookup") {
+	for _, c := range an.CallsTo(anchor, dataPath+".Lookup") {
 		if strings.Contains(an.Describe(an.Unwrap(c.Common().Args[1])), "importsKey") && derivesFromAlloc(c.Common().Args[2], "impData") {
 			okSrc = true
 		}
@@ -112,8 +116,13 @@ func c11OnlyMatchedDeleted(r *an.Run) {
 	}
 	del := dels[0]
 	a := del.Common().Args
-	r.Check(elemOf(a[len(a)-1], "impData.MatchedImports", il.Index), short(f)+"|deleted-path", del.Pos(), "the path deleted is the matched import of this iteration")
-	r.Check(a[1] == ssa.Value(paramAt(f, 1)), short(f)+"|deleted-from", del.Pos(), "deleted from the file being rewritten")
+	r.Check(elemOfIn(anchor, a[len(a)-1], "impData.MatchedImports", il.Index), short(f)+"|deleted-path", del.Pos(), "the path deleted is the matched import of this iteration")
+	fileParam := ssa.Value(paramAt(anchor, 1))
+	delFrom := a[1]
+	if p, ok := delFrom.(*ssa.Parameter); ok && p.Parent() != anchor && an.Actual(p) != nil {
+		delFrom = an.Actual(p)
+	}
+	r.Check(delFrom == fileParam, short(f)+"|deleted-from", del.Pos(), "deleted from the file being rewritten")
 	// condition: replaced || !uses
 	var usesCall *ssa.Call
 	for _, c := range callsInLoop(il.Loop) {
@@ -175,7 +184,11 @@ func c11OnlyMatchedDeleted(r *an.Run) {
 			r.Check(okOnly, short(f)+"|only-when-unused-or-replaced", del.Pos(), "a matched import is deleted only when an added import replaces its name or the name is no longer used in the file (%d paths of one iteration)", n)
 			r.Check(okAlways, short(f)+"|always-when-unused-or-replaced", del.Pos(), "and it is always deleted then ('-' imports that are no longer referred to are gone)")
 		}
-		r.Check(usesCall.Call.Args[0] == ssa.Value(paramAt(f, 1)), short(f)+"|uses-file", usesCall.Pos(), "usage is tested on the rewritten file")
+		usesOn := usesCall.Call.Args[0]
+		if p, ok := usesOn.(*ssa.Parameter); ok && p.Parent() != anchor && an.Actual(p) != nil {
+			usesOn = an.Actual(p)
+		}
+		r.Check(usesOn == fileParam, short(f)+"|uses-file", usesCall.Pos(), "usage is tested on the rewritten file")
 	}
 	// per-iteration freshness of lookup targets
 	for _, c := range callsInLoop(il.Loop, dataPath+".Lookup") {
